@@ -550,5 +550,26 @@ impl ByteString {
 //@end
 }
 
+
+// ---- AsRef<ByteString> and the serde impl (feature `serde`): every way INTO a ByteString goes through a checked constructor
+impl ByteString {
+//@extract file=bytestring/src/lib.rs item="impl AsRef<ByteString> for ByteString / fn as_ref" ret=r props=C20 name=lib::as_ref_self sig_replace="fn as_ref(&self)=>fn as_ref_self(&self)"
+//@spec
+    ensures r@ == self@,
+//@end
+}
+/// serde::Deserializer as far as `String::deserialize` needs it: whatever it yields is a String (valid UTF-8)
+pub trait DeserializerLike: Sized { type Error; }
+impl String {
+    #[verifier::external_body]
+    pub fn deserialize<D: DeserializerLike>(d: D) -> (r: Result<String, D::Error>) { unimplemented!() }
+}
+impl ByteString {
+//@extract file=bytestring/src/lib.rs item="mod serde / impl<'de> Deserialize<'de> for ByteString / fn deserialize" ret=r props=C20 name=lib::deserialize sig_replace="D: Deserializer<'de>,=>D: DeserializerLike,"
+//@spec
+    ensures true,     // the obligation is the TYPE INVARIANT of the value built (checked at the construction site inside `From<String>`)
+//@end
+}
+
 } // verus!
 fn main() {}
